@@ -28,7 +28,7 @@ theorem resolveResources_keys (env : Env) :
           simp [hp, ht] at h; subst h
           simp only [List.map_cons, List.mem_cons]; exact Or.inr (ih hk)
         | true =>
-          cases hv : Spec.resolve env r with
+          cases hv : resolveResource env r with
           | none => simp [hp, ht, hv] at h
           | some v =>
             simp [hp, ht, hv] at h; subst h
@@ -41,7 +41,7 @@ theorem resolveResources_keys (env : Env) :
 theorem resolveResources_lookup (env : Env) :
     ∀ (res out : List (String × J)), resolveResources env res = some out → (res.map (·.1)).Nodup →
       ∀ k r, J.lookup k res = some r →
-        J.lookup k out = (if present env.conds r = some true then Spec.resolve env r else none)
+        J.lookup k out = (if present env.conds r = some true then resolveResource env r else none)
   | [], out, _, _, k, r, hk => by simp [J.lookup] at hk
   | (k', r') :: rest, out, h, hn, k, r, hk => by
     rw [List.map_cons, List.nodup_cons] at hn
@@ -63,14 +63,14 @@ theorem resolveResources_lookup (env : Env) :
           cases keep with
           | false => simp [hp, ht] at h; subst h; simp [hnot, hp]
           | true =>
-            cases hv : Spec.resolve env r' with
+            cases hv : resolveResource env r' with
             | none => simp [hp, ht, hv] at h
             | some v => simp [hp, ht, hv] at h; subst h; simp [J.lookup_cons, hp, hv]
         · simp only [hkk, if_false] at hk
           cases keep with
           | false => simp [hp, ht] at h; subst h; exact ih hk
           | true =>
-            cases hv : Spec.resolve env r' with
+            cases hv : resolveResource env r' with
             | none => simp [hp, ht, hv] at h
             | some v =>
               simp [hp, ht, hv] at h; subst h
@@ -111,7 +111,7 @@ theorem C07_env_by_name (env env' : Env) (he : EnvEquiv env env') :
     have hp : present env.conds r = present env'.conds r := by
       unfold present
       simp only [he.conds]
-    simp only [resolveResources, hp, resolve_ext he r, C07_env_by_name env env' he rest]
+    simp only [resolveResources, resolveResource, hp, resolve_ext he r, C07_env_by_name env env' he rest]
 
 /-- C07_mappings_perm / C07_params_perm: permuted sections with unique names answer lookups alike -/
 theorem C07_sections_perm (p p' m m' : List (String × J)) (c c' : List (String × Bool))
